@@ -7,6 +7,7 @@
     [gc c]: the repaired code (the three fix: commits). Polls are atomic (threads: C19). *)
 From Coq Require Import List ZArith Bool.
 From LV Require Import Reactive.Async Reactive.AsyncProofs.
+From LV Require Reactive.Transition Reactive.TransitionProofs.
 Import ListNotations.
 
 (** at most one fetch is in flight and it is the newest: the version test never fails, so an
@@ -110,3 +111,24 @@ Theorem C10_suspense_released : forall c initial evs, gc c ->
   quiescent s -> susp_held s = 0%nat.
 Proof. exact suspense_released. Qed.
 Print Assumptions C10_suspense_released.
+
+(** transitions (reactive_graph/src/transition.rs; model Reactive/Transition.v): one task awaits
+    [AsyncTransition::run(action)]; the action [p] creates async derived values and awaits nested
+    runs; [evs] completes the fetch futures and polls the tasks in any order, [settle] is the end of
+    a case. [snaps] records, for each run whose awaiting code has resumed, whether each value created
+    inside its action (from node [lo] on, nested runs included) held its value at that moment:
+    "every task that awaited it has been resumed with a value" *)
+Theorem C10_transition_resumes_only_when_all_resolved : forall p evs fuel r lo l,
+  nth_error (Transition.snaps (Transition.settle true fuel (Transition.run true p evs))) r = Some (Some (lo, l)) ->
+  forallb (fun b => b) l = true.
+Proof. exact TransitionProofs.resumed_only_when_all_resolved. Qed.
+Print Assumptions C10_transition_resumes_only_when_all_resolved.
+
+(** a variant of [AsyncTransition::run] that clears the global slot when an action finishes, instead
+    of putting the previously installed transition back, violates it *)
+Theorem C10_transition_clearing_variant_refuted :
+  exists p evs r lo l,
+    nth_error (Transition.snaps (Transition.run false p evs)) r = Some (Some (lo, l)) /\
+    forallb (fun b => b) l = false.
+Proof. exact TransitionProofs.clearing_variant_refuted. Qed.
+Print Assumptions C10_transition_clearing_variant_refuted.
